@@ -1080,6 +1080,23 @@ func (x *rawRun) menu() []action {
 					x.peerSendData(s[0]-3, s[1]+3, false)
 				}})
 			}
+			if !last && x.fits(x.pSegs[1]) {
+				nx := x.pSegs[1]
+				ext := nx[1] / 2
+				if ext > 0 {
+					// re-segmented retransmission: the later segment arrives first, then a segment
+					// that fills the hole and reaches into the middle of the one already received
+					m = append(m, action{name: fmt.Sprintf("peer sends [%d,+%d) first, then [%d,+%d) which reaches into it", nx[0], nx[1], s[0], s[1]+ext), cost: 1, do: func() {
+						x.pSegs = x.pSegs[2:]
+						x.peerSendData(nx[0], nx[1], false)
+						x.peerSendData(s[0], s[1]+ext, false)
+					}})
+				}
+				m = append(m, action{name: fmt.Sprintf("peer sends [%d,+%d), reaching into the next segment", s[0], s[1]+ext), cost: 1, do: func() {
+					x.pSegs = x.pSegs[1:]
+					x.peerSendData(s[0], s[1]+ext, false)
+				}})
+			}
 			if s[1] > 4 {
 				m = append(m, action{name: fmt.Sprintf("peer sends [%d,+%d) in two pieces, second first", s[0], s[1]), cost: 1, do: func() {
 					x.pSegs = x.pSegs[1:]
